@@ -70,7 +70,16 @@ func (codec *wsCodec) ReadMessage() (*jsonrpc2.Message, error) {
 	if err != nil {
 		return nil, err
 	}
-	return codec.inner.ReadMessage()
+	msg, err := codec.inner.ReadMessage()
+	if err != nil {
+		return msg, err
+	}
+	// Skip whatever is left of the frame (such as the trailing newline), the
+	// next read has to start at a frame header.
+	if err := codec.r.Discard(); err != nil {
+		return nil, err
+	}
+	return msg, nil
 }
 
 func (codec *wsCodec) WriteMessage(msg *jsonrpc2.Message) error {
